@@ -17,7 +17,7 @@ PROP = {
     "level_note": "Two confirmed defects on the pinned tree are listed in known_findings.json (detached push/remove; push after remove). Deactivate deviates from the documented automaton in two proved ways (peer-removed document on the memory DB; no stored change of the actor).",
     "technique": "Lean 4 proof (case analysis over the handler model, reachable-state invariants) + exhaustive small-scope differential replay",
     "partial": [
-        "writes_only_when_attached: false on the pinned tree (detached_push_witness); proved for the model with the guard (cfg.detachGuardFirst = true) and as writes_only_when_attached_partial for every request except detach/remove from a client that does not hold the document",
+        
         "removed_sticky: the 'stores no further change' clause is false on the pinned tree (push_after_remove_witness); proved: removed flag is permanent and echoed in every later response",
     ],
     "not_modelled": ["compaction", "housekeeping deactivation of inactive clients", "attachment limits", "MongoDB store"],
